@@ -21,6 +21,7 @@ type Clause struct {
 	File    string
 	Line    int
 	OnPanic bool // ensures evaluated on the exceptional exit as well
+	OnlyPanic bool // "!!": ensures about the recovered/exceptional exit only
 }
 
 type LetDef struct {
@@ -211,7 +212,7 @@ type ContractDB struct {
 	FilePkg map[string]string // file -> package import path
 }
 
-var clauseRe = regexp.MustCompile(`^(requires|ensures|invariant|assert)(\?)?(\[[^\]]*\])?(!)?\s*(.*)$`)
+var clauseRe = regexp.MustCompile(`^(requires|ensures|invariant|assert)(\?)?(\[[^\]]*\])?(!!|!)?\s*(.*)$`)
 
 var topKeywords = map[string]bool{"lockinv": true, "libkeeps": true, "frameset": true, "shared": true, "funcalias": true, "libframe": true, "enumerates": true, "callsites": true, "zeroglobal": true, "constglobal": true, "writes": true, "covers": true, "func": true, "ext": true, "iface": true, "spec": true, "ghost": true, "axiom": true, "sealed": true, "lemma": true, "pure": true, "class": true, "trusted": true}
 var subKeywords = map[string]bool{"spawnset": true, "ghostset": true, "property": true, "flags": true, "requires": true, "ensures": true, "modifies": true, "loop": true, "let": true, "params": true}
@@ -771,7 +772,7 @@ func parseClause(text, file string, line int) (*Clause, error) {
 	if m == nil {
 		return nil, fmt.Errorf("bad clause %q", text)
 	}
-	c := &Clause{Kind: m[1], Claimed: m[2] == "", Name: strings.Trim(m[3], "[]"), File: file, Line: line, OnPanic: m[4] == "!"}
+	c := &Clause{Kind: m[1], Claimed: m[2] == "", Name: strings.Trim(m[3], "[]"), File: file, Line: line, OnPanic: m[4] == "!" || m[4] == "!!", OnlyPanic: m[4] == "!!"}
 	src := m[5]
 	// property restriction @Cnn at the start
 	for strings.HasPrefix(src, "@C") {
